@@ -617,6 +617,8 @@ Section Channel.
     { rewrite Hn, dmsgs_cons. cbn [in_dir]. rewrite pid_eqb_refl, D0. reflexivity. }
     assert (Dq : dmsgs (other p) (net s') = dmsgs (other p) (net s)).
     { rewrite Hn, dmsgs_cons. cbn [in_dir]. rewrite pid_eqb_other. reflexivity. }
+    assert (Hep : eff s' p = eff s p) by (unfold eff, cur_state; rewrite Hp, Dp, C; reflexivity).
+    assert (Heq : eff s' (other p) = eff s (other p)) by (apply (eff_other s s' p Ho); rewrite Dq; reflexivity).
     apply (GI_intro s s' p G Ho).
     - rewrite Hp. exists c. split; [exact F|]. split; [exact V|]. split; [exact Hin|].
       unfold LIc. cbn [ctl mc]. auto.
@@ -624,13 +626,59 @@ Section Channel.
     - apply (dir_other_frame s s' p Ho Dq); [| |apply (gi_dir s G)].
       + rewrite Hp, C. cbn [ctl]. apply rview_same. reflexivity.
       + intro st. rewrite Hp. apply committed_keep; cbn [flog mc ctl]; auto. rewrite C. reflexivity.
-    - rewrite (eff_other s s' p Ho) by (rewrite Dq; reflexivity).
-      rewrite <- (sync_sym s p (gi_sync s G)).
-      unfold eff, cur_state. rewrite Hp, Dp, C. reflexivity.
+    - rewrite Heq, Hep. apply (sync_sym s p (gi_sync s G)).
     - apply (AG_same s s'); [apply (flogs_set s s' p Ho); rewrite Hp; reflexivity| |
                              apply (pending_keep s s' p Ho); rewrite C; discriminate|apply (gi_ag s G)].
-      destruct p; cbn [other] in *.
-      + unfold eff, cur_state. cbn [getp] in *. rewrite Hp, Dp, C. reflexivity.
-      + apply (eff_other s s' PB Ho). rewrite Dq. reflexivity.
+      destruct p; [exact Hep|exact Heq].
+  Qed.
+
+  (* ---------- responder: take the mutex for the pending request ---------- *)
+  Lemma req_in_flight s q m :
+    GI s -> In m (net s) -> is_req_from q m = true ->
+    exists st, ctl (getp s q) = PWait st /\ m = MReq q st (pidx q) (sigof q st)
+               /\ dmsgs q (net s) = [m] /\ resp_busy (ctl (getp s (other q))) = false.
+  Proof.
+    intros G I R. destruct m as [f st a g| |]; try discriminate R. cbn in R. apply pid_eqb_eq in R. subst f.
+    assert (I' : In (MReq q st a g) (dmsgs q (net s))) by (apply dmsgs_in; [exact I|cbn; apply pid_eqb_refl]).
+    pose proof (gi_dir s G q) as D. unfold Dir in D.
+    destruct (ctl (getp s q)) eqn:C;
+      try (destruct D as [D _]; rewrite D in I'; elim I').
+    destruct D as [[D B]|[[D _]|[[D _]|[D _]]]]; rewrite D in I'.
+    - destruct I' as [I'|[]]. injection I' as <- <- <-. exists s0. rewrite D. auto.
+    - elim I'.
+    - destruct I' as [I'|[]]. discriminate I'.
+    - destruct I' as [I'|[]]. discriminate I'.
+  Qed.
+
+  Lemma gi_LDeliver s p s' : GI s -> lstep s (LDeliver p) = Some s' -> GI s'.
+  Proof.
+    intros G H. unfold lstep in H. cbn [label_party] in H.
+    destruct (ctl (getp s p)) eqn:C; try discriminate H.
+    destruct (remove_first _ _) as [[m n']|] eqn:R; [|discriminate H].
+    destruct (remove_first_spec _ _ _ _ R) as [Rf _].
+    destruct (req_in_flight s (other p) m G (remove_first_in _ _ _ _ R) Rf) as (st & CY & -> & DY & _).
+    injection H as <-.
+    assert (Din : in_dir (other p) (MReq (other p) st (pidx (other p)) (sigof (other p) st)) = true)
+      by (cbn; apply pid_eqb_refl).
+    destruct (dmsgs_remove _ _ _ _ (other p) _ R Din DY) as (_ & DY' & DP'). rewrite other_other in DP'.
+    li_open G p c F V Hin L C.
+    pose proof (gi_dir s G p) as D. unfold Dir in D. rewrite C in D. destruct D as [D0 _].
+    set (s' := with_net _ _).
+    assert (Ho : getp s' (other p) = getp s (other p)) by (unfold s'; rewrite getp_with_net; apply getp_upd_other).
+    assert (Hp : getp s' p = mkParty (mc (getp s p)) (RGot st (pidx (other p)) (sigof (other p) st)) (flog (getp s p)))
+      by (unfold s'; rewrite getp_with_net; apply getp_upd_same).
+    assert (Hn : net s' = n') by reflexivity.
+    assert (Hep : eff s' p = eff s p) by (unfold eff, cur_state; rewrite Hp, C; reflexivity).
+    assert (Heq : eff s' (other p) = eff s (other p)).
+    { apply (eff_other s s' p Ho). rewrite Hn, DY', DY. reflexivity. }
+    apply (GI_intro s s' p G Ho).
+    - rewrite Hp. exists c. split; [exact F|]. split; [exact V|]. split; [exact Hin|].
+      unfold LIc. cbn [ctl mc]. exact L.
+    - unfold Dir. rewrite Hp, Ho, Hn, DP', D0, CY. cbn [ctl]. auto.
+    - unfold Dir. rewrite other_other, Hp, Ho, Hn, DY', CY. cbn [ctl]. right. left. cbn [handling]. auto.
+    - rewrite Heq, Hep. apply (sync_sym s p (gi_sync s G)).
+    - apply (AG_same s s'); [apply (flogs_set s s' p Ho); rewrite Hp; reflexivity| |
+                             apply (pending_keep s s' p Ho); rewrite C; discriminate|apply (gi_ag s G)].
+      destruct p; [exact Hep|exact Heq].
   Qed.
 End Channel.
